@@ -241,6 +241,23 @@ CHECKS = {
         note='Slots are annotated by hand in the pool; the design-level theorem T-Spelling over a lexer model is not claimed (no Lexer.tla): the '
              'oracle is code-vs-code; deviations <= 2 per spelling.',
         technique='TLA+ rewrite-rule model; TLC-enumerated respellings compiled by the real parser; structural-equality law'),
+    'C07': dict(
+        category='exploration',
+        text='A TLA+ specification does not measure time; the check combines model checking of ambiguity with model-driven measurement. '
+             '(a) every compiled regular expression reachable in the working tree (12 token patterns incl. the five special pseudo-class '
+             'patterns specialised to their dispatcher names, css_match / util / pretty patterns) is converted at check time into an '
+             'epsilon-free multi-edge NFA with guard states for short look-aheads (harness/regex_nfa.py, validated against re on generated '
+             'strings) and given to RegexAmb.tla as constants; TLC searches the product of two copies for an exponential-ambiguity witness '
+             '(T-NoEDA, Weber-Seidl) at every loop anchor whose exit is not immediately accepting; a witness is confirmed on the real parser '
+             '(prefix + pump*n + kill must take > 1 s and grow >= 1.8x per pump, CPU time of a child) before it is reported. '
+             '(b) pump families: every prefix of ~60 pool selectors pumped at every slot with 5 terminators; (c) each family with <= 64 '
+             'characters must finish in < 2 s CPU (healthy: a few ms) and the fitted growth exponent up to n = 2000 must be <= 3.5; same for '
+             'the document-side regexes on attribute values.',
+        design_ref='§6 C07',
+        note='Level claimed: exploration for the measured part, with the TLC ambiguity verdicts inside the evidence (quick tier runs the Python '
+             'reference of the same product search, thorough runs TLC on every automaton and cross-checks); look-behinds and long look-arounds '
+             'are epsilon (over-approximation, counted); thresholds have a >= 400x margin on healthy code, CPU time only.',
+        technique='regex -> NFA extraction + TLA+/TLC product search for exponential ambiguity (confirmed on the code) + measured pump families'),
 }
 
 PENDING = {}
